@@ -331,7 +331,7 @@ def check_C19(tier, t0):
     c = total.counters
     extra = {
         "hash_seeds": per_seed,
-        "single_preemption_sweep": dict(info.get("sweeps", {}), what="13 sibling op pairs x both orders: the first op is interrupted once, at its "
+        "single_preemption_sweep": dict(info.get("sweeps", {}), what="16 sibling op pairs x both orders: the first op is interrupted once, at its "
                                         "k-th pre-emption point, by the complete second op, then resumes (run under PYTHONHASHSEED=0, default context)"),
         "faults_fired": dict((k, v) for k, v in c.items() if k.startswith("fault.")),
         "probes": dict((k, v) for k, v in c.items() if k.startswith("probe.")),
